@@ -99,10 +99,27 @@ func (r *Rec) replayOne(path string) int {
 	go func() { v, err := runDoc(d); ch <- res{v, err} }()
 	budget := time.Duration(envInt("VK_REPLAY_TIMEOUT", 200)) * time.Second
 	var v *Verdict
-	select {
-	case x := <-ch:
-		v, err = x.v, x.err
-	case <-time.After(budget):
+	// the budget is CPU time of this process (a busy machine must not turn a terminating case into a
+	// "hang"); a case that sits idle is bounded by wall time: min(10 x budget, budget + 5 min)
+	cpu0, wall0 := cpuTime(), time.Now()
+	wallMax := min(10*budget, budget+5*time.Minute)
+	tick := time.NewTicker(250 * time.Millisecond)
+	defer tick.Stop()
+	answered := false
+	for !answered {
+		select {
+		case x := <-ch:
+			v, err = x.v, x.err
+			answered = true
+			continue
+		case <-tick.C:
+		}
+		if cpuTime()-cpu0 < budget && time.Since(wall0) < wallMax {
+			continue
+		}
+		break
+	}
+	if !answered {
 		fmt.Printf("VERDICT-JSON {\"class\":\"hang\",\"detail\":\"no answer within %v when run alone\"}\n", budget)
 		if f := r.KnownClass("hang"); f != nil {
 			fmt.Printf("KNOWN-FINDING: property=%s %s [%s]\n", r.ID, f.What, f.ID)
